@@ -24,7 +24,7 @@ RULE = (
     "i+1 for the same reader; after close it equals the full model. (B) the writer runs freely with Hypothesis-drawn "
     "sleeps between calls while a reader polls: every pass must be free of exceptions, a subset of the model, and a "
     "superset of the previous pass; the final pass equals the model. Non-trivial: a pass made while a tmp. file is open "
-    "and >= 1 file is finalized."
+    "and >= 1 file is finalized (distinct_nontrivial counts such passes plus the schedules dominated by them)."
 )
 ASSUMPTIONS = c02.ASSUMPTIONS + ["schedules of (B) are decided by the OS: explored, not enumerated"]
 FLOORS = {"nontrivial": 0.4}
@@ -190,6 +190,7 @@ def run_owned(case, res, fail):
             r.close()
         res.evaluations = st_["points"] * 3
         res.nontrivial = st_["nt"] * 10 >= st_["points"] * 3
+        res.nt_units = st_["nt"]
 
 
 def run_free(case, res, fail):
@@ -254,6 +255,7 @@ def run_free(case, res, fail):
                 reader.close()
         res.evaluations = max(1, passes)
         res.nontrivial = nt > 0
+        res.nt_units = nt
         res.cls("free-running")
 
 
